@@ -428,6 +428,107 @@ func (W *vWorld) opShrink(tag string) {
 	vreach(tag + "/shrink")
 }
 
+// ---- the same operations through the typed generic API (value-initialising paths)
+
+func (W *vWorld) opTypedNew(tag string) {
+	if W.n >= vNE {
+		return
+	}
+	t := W.pickTarget("tnew.t")
+	v := vPos{vU32("tnew.x"), vU32("tnew.y")}
+	mp := NewMap2[vChild, vPos](W.w)
+	var h Entity
+	call := func() { h = mp.NewEntity(&vChild{}, &v, RelIdx(0, t)) }
+	if vLocked || !W.targetOK(t) {
+		W.expectReject(tag+"/typed-new", call)
+		return
+	}
+	if vMode == 2 {
+		return
+	}
+	exp := vEnt{alive: true, pos: v}
+	exp.has[cR1], exp.has[cA] = true, true
+	exp.tgt[0] = t
+	W.armNew(exp, vEvents{create: 1, addRel: 1})
+	vcheck(tag+"/typed-new/no-panic", !vpanics(call))
+	W.disarm(tag + "/typed-new")
+	i := W.n
+	W.n++
+	W.e[i] = exp
+	W.e[i].h = h
+	vcheck(tag+"/typed-new/fresh-handle", W.freshHandle(h, i))
+	W.checkAll(tag + "/typed-new")
+	vreach(tag + "/typed-new")
+}
+
+func (W *vWorld) opTypedAdd(tag string) {
+	i := vPick("tadd.e", W.n)
+	m := &W.e[i]
+	v := vVel{vU32("tadd.v")}
+	mp := NewMap2[vVel, vTag](W.w)
+	call := func() { mp.Add(m.h, &v, &vTag{}) }
+	valid := m.alive && !m.has[cB] && !m.has[cT] && !vLocked
+	if !valid {
+		W.expectReject(tag+"/typed-add", call)
+		return
+	}
+	if vMode == 2 {
+		return
+	}
+	upd := func(m *vEnt) { m.has[cB], m.has[cT], m.vel = true, true, v }
+	W.arm(i, upd, vEvents{add: 1})
+	vcheck(tag+"/typed-add/no-panic", !vpanics(call))
+	upd(m)
+	W.disarm(tag + "/typed-add")
+	W.checkAll(tag + "/typed-add")
+	vreach(tag + "/typed-add")
+}
+
+func (W *vWorld) opTypedExchange(tag string) {
+	i := vPick("tex.e", W.n)
+	m := &W.e[i]
+	v := vVel{vU32("tex.v")}
+	ex := NewExchange1[vVel](W.w).Removes(C[vPos]())
+	call := func() { ex.Exchange(m.h, &v) }
+	valid := m.alive && !m.has[cB] && m.has[cA] && !vLocked
+	if !valid {
+		W.expectReject(tag+"/typed-exchange", call)
+		return
+	}
+	if vMode == 2 {
+		return
+	}
+	upd := func(m *vEnt) { m.has[cB], m.has[cA], m.vel = true, false, v }
+	W.arm(i, upd, vEvents{rem: 1, add: 1})
+	vcheck(tag+"/typed-exchange/no-panic", !vpanics(call))
+	upd(m)
+	W.disarm(tag + "/typed-exchange")
+	W.checkAll(tag + "/typed-exchange")
+	vreach(tag + "/typed-exchange")
+}
+
+func (W *vWorld) opTypedRemove(tag string) {
+	i := vPick("trem.e", W.n)
+	m := &W.e[i]
+	mp := NewMap2[vPos, vChild](W.w)
+	call := func() { mp.Remove(m.h) }
+	valid := m.alive && m.has[cA] && m.has[cR1] && !vLocked
+	if !valid {
+		W.expectReject(tag+"/typed-remove", call)
+		return
+	}
+	if vMode == 2 {
+		return
+	}
+	upd := func(m *vEnt) { m.has[cA], m.has[cR1], m.tgt[0] = false, false, Entity{} }
+	W.arm(i, upd, vEvents{rem: 1, remRel: 1})
+	vcheck(tag+"/typed-remove/no-panic", !vpanics(call))
+	upd(m)
+	W.disarm(tag + "/typed-remove")
+	W.checkAll(tag + "/typed-remove")
+	vreach(tag + "/typed-remove")
+}
+
 const vNOps = 9
 
 func (W *vWorld) applyOp(op int, tag string) {
@@ -450,6 +551,14 @@ func (W *vWorld) applyOp(op int, tag string) {
 		W.opSet(tag)
 	case 8:
 		W.opShrink(tag)
+	case 9:
+		W.opTypedNew(tag)
+	case 10:
+		W.opTypedAdd(tag)
+	case 11:
+		W.opTypedExchange(tag)
+	case 12:
+		W.opTypedRemove(tag)
 	}
 }
 
@@ -498,6 +607,11 @@ func VerifC01_RelRemove()         { vRun(1, func() { vStepRel(2, 1, 60) }) }
 func VerifC01_RelExchange()       { vRun(1, func() { vStepRel(3, 1, 60) }) }
 func VerifC01_RelCopy()           { vRun(1, func() { vStepRel(6, 1, 60) }) }
 
+func VerifC01_PlainTypedAdd()      { vRun(1, func() { vStepPlain(10, 1, 60) }) }
+func VerifC01_PlainTypedExchange() { vRun(1, func() { vStepPlain(11, 1, 60) }) }
+func VerifC01_RelTypedNew()        { vRun(1, func() { vStepRel(9, 1, 60) }) }
+func VerifC01_RelTypedRemove()     { vRun(1, func() { vStepRel(12, 1, 60) }) }
+
 // C04: relation targets
 func VerifC04_RelSetRelations() { vRun(1, func() { vStepRel(4, 1, 60) }) }
 func VerifC04_RelRemoveEntity() { vRun(1, func() { vStepRel(5, 1, 60) }) }
@@ -521,6 +635,9 @@ func VerifC10_RelExchange()       { vRun(2, func() { vStepRel(3, 1, 60) }) }
 func VerifC10_RelSetRelations()   { vRun(2, func() { vStepRel(4, 1, 60) }) }
 func VerifC10_RelRemoveEntity()   { vRun(2, func() { vStepRel(5, 1, 60) }) }
 func VerifC10_RelCopy()           { vRun(2, func() { vStepRel(6, 1, 60) }) }
+func VerifC10_PlainTypedAdd()     { vRun(2, func() { vStepPlain(10, 1, 60) }) }
+func VerifC10_RelTypedNew()       { vRun(2, func() { vStepRel(9, 1, 60) }) }
+func VerifC10_RelTypedRemove()    { vRun(2, func() { vStepRel(12, 1, 60) }) }
 
 // ---- two-operation histories (thorough tier): every pair of operations from each shape
 func vHistory2(rel bool) {
